@@ -35,6 +35,35 @@ func runC01(c *Ctx) bool {
 		c.Progress(false)
 	})
 	base := gen.CountLabeled(nMax, 2)
+	// shape extremes: deep chains, wide stars, many roots, long names around buffer sizes
+	extremes := []func() ([]int, []string){
+		func() ([]int, []string) { return chain(400), nil },
+		func() ([]int, []string) { return chain(33), nil },
+		func() ([]int, []string) { return star(1, 300), nil },
+		func() ([]int, []string) { return star(60, 9), nil },
+		func() ([]int, []string) { return star(11, 11), nil },
+		func() ([]int, []string) { return star(3, 2), []string{"long"} },
+	}
+	for k, mk := range extremes {
+		idx := base + k
+		if !c.Mine(idx) {
+			continue
+		}
+		depths, flag := mk()
+		names := make([]string, len(depths))
+		r := gen.New(c.Seed, 102, uint64(k))
+		for i := range names {
+			names[i] = []string{"a", "b", "c"}[r.Intn(3)] + strconv.Itoa(i%7)
+			if flag != nil {
+				names[i] = gen.NameOf(r, gen.ClassLong)
+			}
+		}
+		cs := &Case{Idx: idx, Kind: "shape-extreme", Seed: r.Uint64(), Depths: depths, Names: names}
+		c.Journal(cs)
+		evalC01(c, cs)
+		c.Progress(false)
+	}
+	base += len(extremes)
 	nRand := c.Pick(20000, 400000)
 	for j := 0; j < nRand; j++ {
 		idx := base + j
@@ -43,7 +72,9 @@ func runC01(c *Ctx) bool {
 		}
 		r := gen.New(c.Seed, 101, uint64(j))
 		classes := allNameClasses
-		if r.Chance(1, 3) {
+		if r.Chance(1, 25) {
+			classes = []int{gen.ClassPlain, gen.ClassLong}
+		} else if r.Chance(1, 3) {
 			classes = []int{gen.ClassPlain, allNameClasses[r.Intn(len(allNameClasses))]}
 		}
 		f := gen.RandForest(r, []int{6, 15, 60}[r.Intn(3)], r.Range(2, 12), classes, []int{0, 15, 40}[r.Intn(3)])
@@ -165,4 +196,25 @@ func evalC01(c *Ctx, cs *Case) {
 			c.Sample(cs.Kind, map[string]any{"forest": f.String(), "spelling": sp.String(), "doc": doc, "branch": branches[len(branches)-1], "output": string(o.Out)})
 		}
 	}
+}
+
+// chain: one root with a single path of the given depth.
+func chain(depth int) []int {
+	d := make([]int, depth)
+	for i := range d {
+		d[i] = i + 1
+	}
+	return d
+}
+
+// star: roots roots, each with kids children (depth 2).
+func star(roots, kids int) []int {
+	var d []int
+	for r := 0; r < roots; r++ {
+		d = append(d, 1)
+		for k := 0; k < kids; k++ {
+			d = append(d, 2)
+		}
+	}
+	return d
 }
